@@ -291,6 +291,116 @@ def o7(h, st):
     h.done()
 
 
+# O8 UHF frozen-core folding: a polynomial identity in the integrals -----------------------------------------------------------------------
+
+def _subsets(xs):
+    out = []
+    for k in range(len(xs) + 1):
+        out += [list(c) for c in itertools.combinations(xs, k)]
+    return out
+
+
+def o8_structures(tier):
+    """n spatial orbitals; per spin: frozen occupied F, active orbitals Act (disjoint from F; the rest are frozen virtuals)"""
+    sts = []
+    ns = (3,) if tier == "quick" else (3, 4)
+    for n in ns:
+        choices = []
+        for F in _subsets(range(n)):
+            rest = [i for i in range(n) if i not in F]
+            for A in _subsets(rest):
+                if A and len(F) <= 2:
+                    choices.append((F, A))
+        pairs = list(itertools.product(choices, repeat=2))
+        step = 1 if (tier != "quick" and n == 3) else (7 if n == 3 else 97)
+        for (Fa, Aa), (Fb, Ab) in pairs[::step]:
+            sts.append({"n": n, "Fa": Fa, "Aa": Aa, "Fb": Fb, "Ab": Ab})
+    # the case of a seeded change: different non-empty frozen occupied sets
+    sts += [{"n": 3, "Fa": [0], "Aa": [1, 2], "Fb": [1], "Ab": [0, 2]}, {"n": 3, "Fa": [0, 1], "Aa": [2], "Fb": [0], "Ab": [1, 2]}]
+    return sts
+
+
+def _det_energy(c, h1, g, A, B):
+    """energy of the determinant with alpha orbitals A and beta orbitals B for H = c + sum h[s][p,q] a+_p a_q + 1/2 sum g_ss[p,q,r,s] a+_p a+_q a_r a_s
+    + sum g_ab[p,q,r,s] a+_p,alpha a+_q,beta a_r,beta a_s,alpha   (the convention of get_integrals / openfermion)"""
+    e = c
+    for i in A:
+        e = e + h1[0][i, i]
+    for i in B:
+        e = e + h1[1][i, i]
+    for i in A:
+        for j in A:
+            e = e + (g[0][i, j, j, i] - g[0][i, j, i, j]) * 0.5
+    for i in B:
+        for j in B:
+            e = e + (g[2][i, j, j, i] - g[2][i, j, i, j]) * 0.5
+    for i in A:
+        for j in B:
+            e = e + g[1][i, j, j, i]
+    return e
+
+
+@contract("C04", "O8.uhf_frozen_core_folding", level="S", structures=o8_structures, targets=[(ML, "SecondQuantizedMolecule._get_active_space_integrals_uhf")],
+          native_samples=lambda st, rnd, tier: [{"seed": rnd.randint(0, 10 ** 6)}])
+def o8(h, st):
+    """for EVERY value of the core constant and of the alpha / beta one-body and alpha-alpha / alpha-beta / beta-beta two-body integrals (symbolic tensors with the
+    particle-exchange symmetry g[p,q,r,s] == g[q,p,s,r] of the same-spin blocks), every choice of frozen occupied and active orbitals per spin channel (the two channels
+    independent), and every determinant that keeps the frozen occupied orbitals filled and the frozen virtual ones empty: the energy computed from the folded
+    (core constant, one-body, two-body) integrals on the active orbitals equals the energy computed from the full integrals; the two-body outputs are the active
+    sub-blocks; the input arrays are unchanged"""
+    import numpy as np
+    n, Fa, Aa, Fb, Ab = st["n"], st["Fa"], st["Aa"], st["Fb"], st["Ab"]
+    if h.symbolic:
+        def sym(name):
+            return h.real(name)
+    else:
+        # native run: either a seeded random sample, or the replay of a counter-model (values of the symbols that occur in it; the others are irrelevant: 0)
+        conc = h.ctx.concrete
+        rs = np.random.default_rng(int(conc["seed"])) if "seed" in conc else None
+        cache = {}
+
+        def sym(name):
+            if name not in cache:
+                cache[name] = float(conc[name]) if name in conc else (float(rs.normal()) if rs is not None else 0.0)
+            return cache[name]
+    c0 = sym("c0")
+    h1 = [np.empty((n, n), dtype=object) for _ in range(2)]
+    for s_ in range(2):
+        for p_ in range(n):
+            for q_ in range(n):
+                h1[s_][p_, q_] = sym(f"h{s_}_{p_}{q_}")
+    g = [np.empty((n, n, n, n), dtype=object) for _ in range(3)]
+    for b_ in range(3):
+        for idx in itertools.product(range(n), repeat=4):
+            p_, q_, r_, s_ = idx
+            key = min(idx, (q_, p_, s_, r_)) if b_ != 1 else idx
+            g[b_][idx] = sym(f"g{b_}_" + "".join(map(str, key)))
+    if not h.symbolic:
+        h1 = [x.astype(float) for x in h1]
+        g = [x.astype(float) for x in g]
+    before = (snapshot([x.tolist() for x in h1]), snapshot([x.tolist() for x in g]))
+    dummy = type("M", (), {})()
+    c1, h1n, gn = h.call(ML, "SecondQuantizedMolecule._get_active_space_integrals_uhf", dummy, c0, h1, g, [list(Fa), list(Fb)], [list(Aa), list(Ab)])
+    h.check("input integral arrays unchanged", (snapshot([x.tolist() for x in h1]), snapshot([x.tolist() for x in g])) == before)
+    h.check("shapes of the folded integrals", h1n[0].shape == (len(Aa),) * 2 and h1n[1].shape == (len(Ab),) * 2 and gn[0].shape == (len(Aa),) * 4
+            and gn[1].shape == (len(Aa), len(Ab), len(Ab), len(Aa)) and gn[2].shape == (len(Ab),) * 4)
+    ok_blocks = True
+    for idx in itertools.product(range(len(Aa)), repeat=4):
+        ok_blocks = ok_blocks and (gn[0][idx] is g[0][tuple(Aa[k] for k in idx)] or gn[0][idx] == g[0][tuple(Aa[k] for k in idx)])
+    for idx in itertools.product(range(len(Ab)), repeat=4):
+        ok_blocks = ok_blocks and (gn[2][idx] is g[2][tuple(Ab[k] for k in idx)] or gn[2][idx] == g[2][tuple(Ab[k] for k in idx)])
+    if not h.symbolic:
+        h.check("same-spin two-body outputs are the active sub-blocks", bool(ok_blocks))
+    for occA in _subsets(range(len(Aa))):
+        for occB in _subsets(range(len(Ab))):
+            A = list(Fa) + [Aa[k] for k in occA]
+            B = list(Fb) + [Ab[k] for k in occB]
+            e_full = _det_energy(c0, h1, g, A, B)
+            e_act = _det_energy(c1, h1n, gn, occA, occB)
+            h.check_close(f"determinant alpha{A} beta{B}: folded energy == full energy", e_act, e_full, tol=1e-9)
+    h.done()
+
+
 PROPERTY = {
     "level": "exploration",
     "explanation": "The headline (mean-field expectation value, full-CI eigenvalue, rotation invariance) is a floating-point statement about PySCF integrals and eigenvalues: no contract "
